@@ -17,7 +17,9 @@ THEOREMS = ['Fsic.C10.' + n for n in [
     'access_paths_agree_attribute_false_at_witness', 'add_variable_refuses_attribute_name', 'no_shadow_init',
     'no_shadow_step', 'no_shadow_history', 'access_paths_agree_attribute',
     'access_paths_agree_label_write',
-    'access_paths_agree_pos_write', 'access_paths_agree_whole_write', 'access_paths_agree_slice_write']]
+    'access_paths_agree_pos_write', 'access_paths_agree_whole_write', 'access_paths_agree_slice_write',
+    'alias_resolves_names_only', 'alias_label_passthrough', 'alias_label_get', 'alias_label_set',
+    'alias_missing_label_keyerror', 'alias_paths_agree']]
 RULE = ('every span of each type up to the length bound (ranges with non-zero origin and step, lists and tuples of '
         'strings, mixed hashables where 1 / 1.0 / True are one label, NumPy int and str arrays, pandas Index of '
         'ints / strings, annual and quarterly PeriodIndex, DatetimeIndex, plus spans with repeated labels for the '
@@ -26,7 +28,10 @@ RULE = ('every span of each type up to the length bound (ranges with non-zero or
         '{get, set scalar, set list}; after every write the series is read back through attribute, name key, '
         'position, label and label slice; writes through attribute / key / position are read back by label; the same '
         'accesses are repeated on a copy, after the values changed, and on a reindexed copy (shifted / extended / '
-        'permuted span of the same type), positions always judged against the span of the object accessed. '
+        'permuted span of the same type), positions always judged against the span of the object accessed; '
+        'alias-enabled classes (AliasMixin over container / model / linker, chained aliases) on string spans whose '
+        'labels coincide with alias names, with variable names, with neither — single labels, slice ends and absent '
+        'labels of each kind, through aliases and variable names, all paths read back. '
         'Whole space enumerated (seed-independent) on VectorContainer; BaseModel (hand-written / parser-built) and '
         'BaseLinker instances take every second span in a fixed rotation (every span in the thorough tier). distinct = distinct (flavour, span, access); non-trivial = the access addresses at least one '
         'period or must raise KeyError')
@@ -42,7 +47,7 @@ ASSUMPTIONS = ['labels identify periods: the oracle speaks about spans whose lab
                'step > 0; spans of length >= 1 for open-ended slices']
 
 META = {
-    "text": "Theorems over the container model M6, for every well-formed store, span, label and slice: Python slice semantics for all bounds and positive steps (pySlice_spec, clamp_spec); a label is located at its first occurrence / at its unique occurrence for NumPy spans and a label not in the span is missing (locate_*); obj[name, label] reads and writes exactly the element at the label's position, nothing else changes (label_get, label_set, label_set_frame); obj[name, a:b:s] addresses pos(a), pos(a)+s, ... up to and including pos(b), nothing if pos(a) > pos(b), open ends = span ends for distinct labels (label_slice_*); a missing label raises KeyError on reads and writes, single or slice end, and leaves the store unchanged (missing_label_keyerror); a value written through label, position, name key / attribute or label slice is read back through each of the others (access_paths_agree_*); what an access addresses depends on the span alone and is unchanged by every history of operations (access_depends_only_on_span, access_unchanged_by_history). The attribute path is proved when no attribute-list entry carries the variable's name: as shipped, add_variable accepts the name of an existing ad-hoc attribute and obj.name then returns the stale attribute (negation proved at a witness for the shipped configuration, reproduced on the real code, open known finding); for a configuration in which add_variable also checks the attribute list (a reflected switch, probed on every run) that situation is unreachable (no_shadow_step / no_shadow_history) and the attribute path agrees at full strength (access_paths_agree_attribute). pandas get_loc is an input of the model (partial). The model is tied to the code by exhaustive enumeration of spans x labels x slice triples x get/set on all span types, compared after every operation.",
+    "text": "Theorems over the container model M6, for every well-formed store, span, label and slice: Python slice semantics for all bounds and positive steps (pySlice_spec, clamp_spec); a label is located at its first occurrence / at its unique occurrence for NumPy spans and a label not in the span is missing (locate_*); obj[name, label] reads and writes exactly the element at the label's position, nothing else changes (label_get, label_set, label_set_frame); obj[name, a:b:s] addresses pos(a), pos(a)+s, ... up to and including pos(b), nothing if pos(a) > pos(b), open ends = span ends for distinct labels (label_slice_*); a missing label raises KeyError on reads and writes, single or slice end, and leaves the store unchanged (missing_label_keyerror); a value written through label, position, name key / attribute or label slice is read back through each of the others (access_paths_agree_*); what an access addresses depends on the span alone and is unchanged by every history of operations (access_depends_only_on_span, access_unchanged_by_history); through an alias-enabled class (AliasMixin, model M8's resolve composed with M6) the alias is resolved in the name position only and the label or label slice is passed through unchanged, also when it is spelled like an alias or a variable (alias_*). The attribute path is proved when no attribute-list entry carries the variable's name: as shipped, add_variable accepts the name of an existing ad-hoc attribute and obj.name then returns the stale attribute (negation proved at a witness for the shipped configuration, reproduced on the real code, open known finding); for a configuration in which add_variable also checks the attribute list (a reflected switch, probed on every run) that situation is unreachable (no_shadow_step / no_shadow_history) and the attribute path agrees at full strength (access_paths_agree_attribute). pandas get_loc is an input of the model (partial). The model is tied to the code by exhaustive enumeration of spans x labels x slice triples x get/set on all span types, compared after every operation.",
     "design_ref": "DESIGN.md §5 M6, §6 C10",
     "note": "Partial: pandas' get_loc is not modelled — its recorded answers are inputs. Trusted: Lean kernel; axioms propext/Classical.choice/Quot.sound; the correspondence harness; Python ==/hash for label identity; NumPy basic slicing. The oracle assumes pairwise distinct labels. Attribute-path agreement is claimed only outside the known finding (variable created with the name of an existing attribute).",
     "technique": "Lean 4 proof (slice arithmetic, first-occurrence search, get-after-set lemmas) + exhaustive differential correspondence check"
@@ -223,6 +228,7 @@ class Oracle:
     def __init__(self, rep, case, partial):
         self.rep, self.case = rep, case
         self.partial = [json.dumps(x) for x in partial]
+        self.aliases = case.get('aliases', [])
         self.span_list = None
         self.distinct = True
         self.k = -1
@@ -278,7 +284,8 @@ class Oracle:
             return
         op = item['op']
         n = len(self.span_list)
-        name = item.get('name')
+        # on an alias-enabled object a name stands for the variable it resolves to (the label never does)
+        name = cc.resolve_alias(self.aliases, item['name']) if item.get('name') is not None else None
         if op in ('getLabel', 'setLabel'):
             p = self.pos(item['label'])
             if p[0] == 'skip' or name not in before:
@@ -383,11 +390,92 @@ class Oracle:
                 reads[path] = cc.read_str(f())
             except Exception as e:  # noqa: BLE001
                 reads[path] = type(e).__name__
+        for al in [k for k, _ in self.aliases if cc.resolve_alias(self.aliases, k) == name]:
+            for path, f in ((f'alias-attribute({al})', lambda: getattr(obj, al)[i]), (f'alias-key({al})', lambda: obj[al][i]),
+                            (f'alias-label({al})', lambda: obj[al, lab]),
+                            (f'alias-label-slice({al})', lambda: obj[al, lab:lab][0])):
+                try:
+                    reads[path] = cc.read_str(f())
+                except Exception as e:  # noqa: BLE001
+                    reads[path] = type(e).__name__
         for path, got in reads.items():
             if got != ref:
                 key = ('attribute-shadows-variable' if path == 'attribute' and name in obj._attributes
-                       else f'paths-disagree:{path}')
+                       else f'paths-disagree:{path.split("(")[0]}')
                 self.violate(key, f'{name}[{i}] is {ref} by name key but {got} through the {path} path')
+
+
+ALIASES = [['GDP', 'Y'], ['INV', 'I'], ['OUT', 'GDP']]     # OUT -> GDP -> Y is a chain
+ALIAS_SPANS = [     # (tag, labels, absent labels)
+    ('labels=var+alias+other', ['Y', 'GDP', 'I', 'q'], ['INV', 'OUT', 'C', 'nope']),
+    ('labels=alias+chained+var', ['INV', 'OUT', 'a', 'GDP', 'C'], ['Y', 'I', 'zz']),
+    ('labels=neither', ['a', 'b', 'c'], ['GDP', 'Y']),
+]
+
+
+def label_kind(lab, own):
+    x = dec_label(lab) if lab is not None else None
+    where = 'in-span' if lab in own else 'absent'
+    if x is None:
+        return 'open'
+    what = ('alias-name' if x in [k for k, _ in ALIASES] else 'variable-name' if x in ('Y', 'C', 'I') else 'other')
+    return f'{what}:{where}'
+
+
+def alias_cases(flavour, span_type, tag, labels, absent, steps):
+    """Label access through alias-enabled classes: the alias is resolved in the NAME position, never in the label."""
+    spec = {'type': span_type, 'labels': [L(x) for x in labels]}
+    n = len(labels)
+    own, ab = [L(x) for x in labels], [L(x) for x in absent]
+    base = {'flavour': flavour, 'strict': False, 'span': spec, 'aliases': ALIASES, 'tag': f'alias:{span_type}:{tag}'}
+    vals = {'Y': X0[:n], 'C': [x + 1 for x in X0[:n]], 'I': [x + 2 for x in X0[:n]]}
+    if flavour == 'acontainer':
+        setup = [{'op': 'addVariable', 'name': k, 'v': enc_operand(v), 'dtype': 'f'} for k, v in vals.items()]
+    else:
+        setup = [{'op': 'setItem', 'name': k, 'v': enc_operand(v)} for k, v in vals.items()]
+    names = ['Y', 'GDP', 'OUT', 'INV', 'C']
+
+    def reads(nm):
+        return [{'op': 'getItem', 'name': nm}, {'op': 'getAttr', 'name': nm}, {'op': 'getPos', 'name': nm, 'i': -1},
+                {'op': 'getItem', 'name': 'Y'}, {'op': 'getItem', 'name': 'I'}, {'op': 'getItem', 'name': 'C'}]
+    ops = list(setup)
+    k = 0
+    for nm in names:
+        for lab in own + ab:
+            k += 1
+            ops.append({'op': 'getLabel', 'name': nm, 'label': lab})
+            ops.append({'op': 'setLabel', 'name': nm, 'label': lab, 'v': enc_operand(100.0 + k)})
+            ops += reads(nm)
+    # whole-series and positional writes through aliases, read back by label through other names
+    ops.append({'op': 'setAttr', 'name': 'GDP', 'v': enc_operand(NEWV)})
+    ops += [{'op': 'getLabel', 'name': x, 'label': lab} for x in ('Y', 'OUT') for lab in own]
+    ops.append({'op': 'setItem', 'name': 'INV', 'v': enc_operand(vals['I'])})
+    ops.append({'op': 'replaceValues', 'kvs': [['OUT', enc_operand(vals['Y'])], ['C', enc_operand(3.5)]]})
+    ops.append({'op': 'setPos', 'name': 'OUT', 'i': 0, 'v': enc_operand(-1.0)})
+    ops += [{'op': 'getLabel', 'name': x, 'label': lab} for x in ('Y', 'GDP', 'INV', 'C') for lab in own[:2]]
+    yield {**base, 'ops': ops, 'part': 'alias-single'}
+    ends = [None] + own + ab[:2]
+    for nm in ('GDP', 'OUT', 'C'):
+        ops = list(setup)
+        k = 0
+        for a in ends:
+            for b in ends:
+                for st in steps:
+                    k += 1
+                    ops.append({'op': 'getLabelSlice', 'name': nm, 'a': a, 'b': b, 'step': st})
+                    ops.append({'op': 'setLabelSlice', 'name': nm, 'a': a, 'b': b, 'step': st, 'v': enc_operand(200.0 + k)})
+                ops.append({'op': 'getItem', 'name': 'Y'})
+                ops.append({'op': 'getItem', 'name': 'C'})
+        yield {**base, 'ops': ops, 'part': 'alias-slice'}
+    if flavour != 'alinker':
+        ops = list(setup)
+        acc = []
+        for nm in ('GDP', 'INV', 'C'):
+            acc += [{'op': 'getLabel', 'name': nm, 'label': lab} for lab in own + ab]
+            acc += [{'op': 'setLabel', 'name': nm, 'label': lab, 'v': enc_operand(55.5)} for lab in own[:2] + ab[:2]]
+            acc += [{'op': 'getLabelSlice', 'name': nm, 'a': a, 'b': None, 'step': None} for a in own + ab[:1]]
+        ops += acc + [{'op': 'copy'}] + acc + [{'op': 'reindex', 'span': {'type': span_type, 'labels': list(reversed(own))[:-1] + ab[:1]}}] + acc
+        yield {**base, 'ops': ops, 'part': 'alias-sequence'}
 
 
 def shadow_cases():
@@ -418,6 +506,13 @@ def check_cases(ctx, rep, cases, partials):
         for it, o in zip([x for x in case['ops'] if x['op'] not in cc.BOUNDARY], impl_out):
             head = o.split('|')[0].split(':')[0]
             rep.dist[f'{it["op"]}:{head}'] += 1
+            if case.get('aliases') and it['op'] in ('getLabel', 'setLabel', 'getLabelSlice', 'setLabelSlice'):
+                own_l = case['span']['labels']
+                kinds = ([label_kind(it['label'], own_l)] if 'label' in it else
+                         [label_kind(it.get('a'), own_l), label_kind(it.get('b'), own_l)])
+                nm_kind = 'via-alias' if it['name'] in [k for k, _ in ALIASES] else 'via-variable'
+                for kd in kinds:
+                    rep.dist[f'alias:{nm_kind}:label={kd}:{it["op"]}:{head}'] += 1
             if it['op'] in ('getLabel', 'setLabel', 'getLabelSlice', 'setLabelSlice'):
                 acc = json.dumps([case['flavour'], case['span'], {k: v for k, v in it.items() if k != 'v'}], sort_keys=True)
                 rep.case(acc, nontrivial=True, sample=None)
@@ -482,6 +577,17 @@ def all_cases(ctx, nmax, steps, seq_lengths=(4,)):
     for c in shadow_cases():
         cases.append(c)
         partials.append([])
+    k = 0
+    for span_type in ('list', 'tuple', 'numpy', 'pindex'):
+        for tag, labels, absent in ALIAS_SPANS:
+            k += 1
+            flavours = ['acontainer', ['amodel', 'alinker'][(k // 2) % 2]] if (ctx.tier != 'quick' or k % 2 == 0) else ['acontainer']
+            if ctx.tier != 'quick':
+                flavours = ['acontainer', 'amodel', 'alinker']
+            for fl in flavours:
+                for c in alias_cases(fl, span_type, tag, labels, absent, steps if ctx.tier != 'quick' else [None, 2]):
+                    cases.append(c)
+                    partials.append([])
     return cases, partials
 
 
